@@ -31,7 +31,7 @@ PROP = {'engine': 'c15',
  'assumptions': ['the scripted transport of surface c models p2p.Peer towards the manager (blocking ReadMsg, per-write deadline, idempotent Close '
                  'ending in a DeletePeer event); its write deadlines run 20x faster than the real ones',
                  'allocation is measured for the whole worker process (one input at a time); the harness\'s own buffers are covered by the 32x factor',
-                 'a delayed crash (block cache timer, spawned goroutines) is attributed to the window of at most 24 inputs the node received '
+                 'a delayed crash (block cache timer, spawned goroutines) is attributed to the window of at most 32 inputs the node received '
                  'since its monitors last found it healthy; the replay re-executes the window on a fresh fixture node',
                  'expiration times of transactions sent to handleTxsMsg are relative to the wall clock at execution (the handler compares with time.Now)',
                  'connection closed-vs-kept is recorded, not judged'],
